@@ -673,6 +673,11 @@ pub fn exec_case<S: Sch>(case: &Case, out: &mut String, with_acc: bool) {
                 }
                 out.push_str(&rec_line(e));
                 out.push('\n');
+                if with_acc {
+                    // the typed accessors of the decoded record as well
+                    out.push_str(&acc_line(e));
+                    out.push('\n');
+                }
                 continue;
             }
             _ => {}
